@@ -8,16 +8,21 @@
 #undef protected
 using namespace datasketches;
 using vh::I; using vh::Line; using vh::Out;
-typedef count_min_sketch<int64_t> cm_t;
-static std::map<long, std::unique_ptr<cm_t>> regs;
+// The weight type W is a template parameter of the sketch: every case runs with one W (int64_t, or int32_t when the case's
+// first `new` op carries a 6th token 1), chosen by the generator; the model is the same (weights are integers, no overflow).
+template<typename W> struct Regs {
+  typedef count_min_sketch<W> cm_t;
+  std::map<long, std::unique_ptr<cm_t>> regs;
+  cm_t& get(I r) {
+    auto it = regs.find((long)r);
+    if (it == regs.end()) throw std::invalid_argument("no such register");
+    return *it->second;
+  }
+  void handle(const Line& t, Out& o);
+};
+static Regs<int64_t> R64; static Regs<int32_t> R32; static int cur_wt = 0;
 
-static cm_t& get(I r) {
-  auto it = regs.find((long)r);
-  if (it == regs.end()) throw std::invalid_argument("no such register");
-  return *it->second;
-}
-
-static void handler(const Line& t, Out& o) {
+template<typename W> void Regs<W>::handle(const Line& t, Out& o) {
   switch ((int)t.at(0)) {
   case 1: { // new r nh nb seed
     std::unique_ptr<cm_t> p(new cm_t((uint8_t)t.at(2), (uint32_t)t.at(3), (uint64_t)t.at(4)));
@@ -25,25 +30,25 @@ static void handler(const Line& t, Out& o) {
     regs[(long)t.at(1)] = std::move(p);
     o.R(1); break; }
   case 2: { // update r w kind args
-    cm_t& s = get(t.at(1)); int64_t w = (int64_t)t.at(2); int kind = (int)t.at(3);
+    cm_t& s = get(t.at(1)); W w = (W)t.at(2); int kind = (int)t.at(3);
     if (kind == 0) s.update((uint64_t)t.at(4), w);
     else if (kind == 1) s.update((int64_t)t.at(4), w);
     else s.update(vh::bytes_of(t, 4), w);
     o.R(1); break; }
   case 3: { // query r kind args -> est lb total ; F: ub
     cm_t& s = get(t.at(1)); int kind = (int)t.at(2);
-    int64_t est, lb, ub;
+    W est, lb, ub;
     if (kind == 0) { uint64_t x = (uint64_t)t.at(3); est = s.get_estimate(x); lb = s.get_lower_bound(x); ub = s.get_upper_bound(x); }
     else if (kind == 1) { int64_t x = (int64_t)t.at(3); est = s.get_estimate(x); lb = s.get_lower_bound(x); ub = s.get_upper_bound(x); }
     else { std::string x = vh::bytes_of(t, 3); est = s.get_estimate(x); lb = s.get_lower_bound(x); ub = s.get_upper_bound(x); }
-    o.R(est); o.R(lb); o.R(s.get_total_weight()); o.F(ub); break; }
+    o.R((I)est); o.R((I)lb); o.R((I)s.get_total_weight()); o.F((I)ub); break; }
   case 4: { // merge r r2
     cm_t& a = get(t.at(1)); cm_t& b = get(t.at(2));
     a.merge(b); o.R(1); break; }
   case 5: { // dump
     cm_t& s = get(t.at(1));
-    o.R(s.get_total_weight());
-    for (auto it = s.begin(); it != s.end(); ++it) o.R(*it);
+    o.R((I)s.get_total_weight());
+    for (auto it = s.begin(); it != s.end(); ++it) o.R((I)*it);
     break; }
   case 6: { // r2 := deserialize(serialize r) ; path 0 = bytes, 1 = stream ; R: 1 seed row-seeds
     cm_t& a = get(t.at(1)); const uint64_t seed = a.get_seed();
@@ -64,6 +69,11 @@ static void handler(const Line& t, Out& o) {
   }
 }
 
+static void handler(const Line& t, Out& o) {
+  if ((int)t.at(0) == 1 && R64.regs.empty() && R32.regs.empty()) cur_wt = t.size() > 5 ? (int)t.at(5) : 0;
+  if (cur_wt == 1) R32.handle(t, o); else R64.handle(t, o);
+}
+
 int main(int argc, char** argv) {
-  return vh::run_main(argc, argv, [] { regs.clear(); }, handler);
+  return vh::run_main(argc, argv, [] { R64.regs.clear(); R32.regs.clear(); cur_wt = 0; }, handler);
 }
